@@ -915,68 +915,89 @@ def use_rule(ctx):
 
 
 def inv_ar_rule(ctx):
-    """INV-AR: the inverse runs one pass per feature, feeding the running estimate to the
-    conditioner and the given inputs to the elementwise inverse."""
+    """INV-AR: the inverse runs (at least) one pass per feature, feeding the running estimate to
+    the conditioner and the given inputs to the element-wise inverse; decided by partial
+    evaluation (nfstatic/peval.py) of `inverse` for inputs with 1, 2, 3 and 4 features, the
+    conditioner and the element-wise hooks being uninterpreted functions, against the recursion
+        est_0 = zeros_like(x);  est_k = einv(x, net(est_{k-1}, ctx))[0];  log-det = einv(x, net(est_{n-1}, ctx))[1]
+    with n >= D."""
+    from ..peval import PEval, Obj, Sym, SymFn, Undecided as PUndecided, show
+
     p = ctx.p
     res = RuleResult("INV-AR", "autoregressive inverse: >= D passes, conditioner sees the running estimate, transformer the given inputs")
     ar = p.find_class("AutoregressiveTransform", "nflows.transforms.autoregressive")
     inv = ar.methods.get("inverse")
-    if inv is None:
-        raise AnalysisIncomplete("AutoregressiveTransform.inverse missing")
-    params = [a for a, _ in inv.params()]
-    x = params[0]
-    loops = [n for n in inv.node.body if isinstance(n, ast.For)]
-    if len(loops) != 1:
-        res.undecide("AutoregressiveTransform.inverse", "expected exactly one pass loop")
-        return res
-    lp = loops[0]
-    # trip count: range(N) with N = prod(inputs.shape[1:]) (possibly through int() and a local)
-    locals_ = {n.targets[0].id: n.value for n in inv.node.body if isinstance(n, ast.Assign) and isinstance(n.targets[0], ast.Name)}
-    it = lp.iter
-    cnt = it.args[0] if isinstance(it, ast.Call) and norm_text(it.func) == "range" and len(it.args) == 1 else None
-    while isinstance(cnt, ast.Name) and cnt.id in locals_:
-        cnt = locals_[cnt.id]
-    while isinstance(cnt, ast.Call) and norm_text(cnt.func) in ("int",):
-        cnt = cnt.args[0]
-    t = norm_text(cnt) if cnt is not None else ""
-    if t in ("np.prod(%s.shape[1:])" % x, "%s.shape[1:].numel()" % x, "%s[0].numel()" % x, "%s.shape[1]" % x, "%s.size(1)" % x, "torch.Size(%s.shape[1:]).numel()" % x):
-        res.ok("inverse runs range(%s) passes" % t)
-    else:
-        res.fail(Finding("INV-AR", inv.module, inv.qualname, lp, "the inverse does not run one pass per feature (trip count `%s`): later features would be left at their initial estimate" % t))
-    # body: params = self.autoregressive_net(<est>, context); <est>, ld = self._elementwise_inverse(<x>, params)
-    est = None
-    net_arg = None
-    inv_arg = None
-    for st in lp.body:
-        if isinstance(st, ast.Assign) and isinstance(st.value, ast.Call):
-            f = attr_chain(st.value.func)
-            if f == "self.autoregressive_net" and st.value.args:
-                net_arg = norm_text(st.value.args[0])
-            elif f == "self._elementwise_inverse" and st.value.args:
-                inv_arg = norm_text(st.value.args[0])
-                tl = st.targets[0]
-                est = norm_text(tl.elts[0]) if isinstance(tl, ast.Tuple) else norm_text(tl)
-    if net_arg is None or inv_arg is None:
-        res.undecide("AutoregressiveTransform.inverse", "loop body is not conditioner call + elementwise inverse")
-        return res
-    if net_arg != est:
-        res.fail(Finding("INV-AR", inv.module, inv.qualname, lp, "the conditioner must be fed the running estimate `%s`, not `%s`" % (est, net_arg)))
-    else:
-        res.ok("conditioner sees the running estimate")
-    if inv_arg != x:
-        res.fail(Finding("INV-AR", inv.module, inv.qualname, lp, "the elementwise inverse must be applied to the given inputs `%s`, not `%s`" % (x, inv_arg)))
-    else:
-        res.ok("elementwise inverse applied to the given inputs")
-    # forward: conditioner(inputs), elementwise forward(inputs, params)
     fwd = ar.methods.get("forward")
-    calls = {attr_chain(n.func): n for n in ast.walk(fwd.node) if isinstance(n, ast.Call) and attr_chain(n.func)}
-    fx = [a for a, _ in fwd.params()][0]
-    c1, c2 = calls.get("self.autoregressive_net"), calls.get("self._elementwise_forward")
-    if c1 is not None and c2 is not None and norm_text(c1.args[0]) == fx and norm_text(c2.args[0]) == fx:
-        res.ok("forward: conditioner and transformer both see the inputs")
-    else:
-        res.fail(Finding("INV-AR", fwd.module, fwd.qualname, fwd.node, "forward must feed the inputs to both the conditioner and the elementwise transform", construct="forward wiring"))
+    if inv is None or fwd is None:
+        raise AnalysisIncomplete("AutoregressiveTransform.inverse / forward missing")
+
+    def mkobj():
+        return Obj({"autoregressive_net": SymFn("net", 1), "_elementwise_inverse": SymFn("einv", 2), "_elementwise_forward": SymFn("efwd", 2)})
+
+    x, cx = ("x",), ("ctx",)
+
+    def spec_inverse(n):
+        est = ("zeros_like", x)
+        call = None
+        for _ in range(n):
+            call = ("call", "einv", x, ("call", "net", est, cx))
+            est = ("item", call, 0)
+        return est, ("item", call, 1) if call is not None else None
+
+    for d in (1, 2, 3, 4):
+        pe = PEval(mkobj(), shapes={x: (d,)})
+        try:
+            r = pe.call_method(inv.node, [Sym(x), Sym(cx)])
+            if not (isinstance(r, tuple) and len(r) == 2 and all(isinstance(v, Sym) for v in r)):
+                raise PUndecided("inverse does not return a pair of tensors")
+        except PUndecided as ex:
+            res.undecide("AutoregressiveTransform.inverse with %d feature(s)" % d, str(ex))
+            continue
+        got = (r[0].term, r[1].term)
+        verdict = None
+        for n in range(0, 3 * d + 3):
+            if got == spec_inverse(n) or (n == 0 and got[0] == ("zeros_like", x)):
+                verdict = n
+                break
+        if verdict is not None and verdict >= d:
+            res.ok("inverse with %d feature(s): %d passes, estimate -> conditioner, inputs -> element-wise inverse" % (d, verdict))
+        elif verdict is not None:
+            res.fail(Finding("INV-AR", inv.module, inv.qualname, inv.node, "the inverse runs %d pass(es) for inputs with %d features: later features are left at their initial estimate" % (verdict, d), construct="passes of inverse, %d feature(s)" % d))
+        else:
+            want = spec_inverse(d)
+            # find what is wired differently
+            why = "outputs `%s`, log-det `%s`" % (show(got[0])[:120], show(got[1])[:120])
+            txt = show(got[0]) + show(got[1])
+            if "net(x" in txt.replace("call(net, ", "net(").replace("('x',)", "x") or ("call", "net", x, cx) in _subterms(got[0]):
+                why = "the conditioner is fed the given inputs instead of the running estimate"
+            elif any(t[:2] == ("call", "einv") and t[2] != x for t in _subterms(got[0])):
+                why = "the element-wise inverse is applied to `%s` instead of the given inputs" % show(next(t[2] for t in _subterms(got[0]) if t[:2] == ("call", "einv") and t[2] != x))[:60]
+            elif got[0] == want[0]:
+                why = "the returned log-det `%s` is not the one of the last pass" % show(got[1])[:100]
+            res.fail(Finding("INV-AR", inv.module, inv.qualname, inv.node, "the inverse is not the fixed-point iteration est_k = einv(inputs, net(est_{k-1}, context)): %s" % why, construct="wiring of inverse, %d feature(s)" % d))
+    # forward: conditioner(inputs), elementwise forward(inputs, params)
+    pe = PEval(mkobj(), shapes={x: (3,)})
+    try:
+        r = pe.call_method(fwd.node, [Sym(x), Sym(cx)])
+        call = ("call", "efwd", x, ("call", "net", x, cx))
+        if isinstance(r, tuple) and len(r) == 2 and all(isinstance(v, Sym) for v in r) and (r[0].term, r[1].term) == (("item", call, 0), ("item", call, 1)):
+            res.ok("forward: conditioner and transformer both see the inputs")
+        else:
+            res.fail(Finding("INV-AR", fwd.module, fwd.qualname, fwd.node, "forward must feed the inputs to both the conditioner and the elementwise transform", construct="forward wiring"))
+    except PUndecided as ex:
+        res.undecide("AutoregressiveTransform.forward", str(ex))
     return res
+
+
+def _subterms(t):
+    out = []
+    stack = [t]
+    while stack:
+        v = stack.pop()
+        if isinstance(v, tuple):
+            out.append(v)
+            stack.extend(v)
+    return out
 
 
 register(
